@@ -163,9 +163,69 @@ package majority
 //@             && (forall m int :: 0 <= m && m < iter && m < i ==> thisAlternativeWorse[plen(ranking, iter1 - 1) + m] == ranking[iter1 - 1][m].Alternative.Id)
 //@             && (forall m int :: i < m && m < iter ==> thisAlternativeWorse[plen(ranking, iter1 - 1) + m - 1] == ranking[iter1 - 1][m].Alternative.Id)
 
+// ---- the request's parameters and the draw policy it names (C11, C01, C20)
+//@ spec drawName(r DrawResolver) string
+//@ ifacemethod DrawResolver.Identifier
+//@   ensures result == drawName(self)
+//@ func (*DrawAllowedResolver).Identifier
+//@   property C11 C20
+//@   nopanic
+//@   ensures [name] result == "allow"
+//@ func (*CurrentIsWinnerDrawResolver).Identifier
+//@   property C11 C20
+//@   nopanic
+//@   ensures [name] result == "current"
+//@ func (*NewerIsWinnerResolver).Identifier
+//@   property C11 C20
+//@   nopanic
+//@   ensures [name] result == "newer"
+//@ func (*RandomWinnerResolver).Identifier
+//@   property C11 C20
+//@   nopanic
+//@   ensures [name] result == "random"
+// the policy named in the request; the first registered one when none is named; an unknown name is rejected
+//@ func (*Majority).drawResolver
+//@   property C11 C20 C01
+//@   panics_iff [unknown_policy] len(params.DrawResolution) == 0 ? len(m.drawResolvers) == 0 : !(exists k int :: 0 <= k && k < len(m.drawResolvers) && drawName(m.drawResolvers[k]) == params.DrawResolution)
+//@   ensures [by_name_default_first] len(params.DrawResolution) == 0 ? result == m.drawResolvers[0]
+//@             : (exists k int :: 0 <= k && k < len(m.drawResolvers) && result == m.drawResolvers[k] && drawName(result) == params.DrawResolution
+//@                  && forall j int :: 0 <= j && j < k ==> drawName(m.drawResolvers[j]) != params.DrawResolution)
+//@   loop 1 invariant [none_so_far] forall j int :: 0 <= j && j < iter ==> drawName(m.drawResolvers[j]) != params.DrawResolution
+//@   loop 2 invariant [none_at_all] (forall j int :: 0 <= j && j < len(m.drawResolvers) ==> drawName(m.drawResolvers[j]) != params.DrawResolution) && fresh(names) && len(names) == len(m.drawResolvers)
+
+//@ spec mjCurrent(p limited_rationality.HeuristicParams) string = p.(*MajorityHeuristicParams).CurrentChoice
+//@ spec mjRandom(p limited_rationality.HeuristicParams) bool = p.(*MajorityHeuristicParams).RandomAlternativesOrdering
+//@ func (*MajorityHeuristicParams).GetCurrentChoice
+//@   property C11 C01
+//@   nopanic
+//@   refines limited_rationality.HeuristicParams.GetCurrentChoice with currentChoiceOf=mjCurrent
+//@   ensures result == m.CurrentChoice
+//@ func (*MajorityHeuristicParams).IsRandomAlternativesOrdering
+//@   property C11 C01
+//@   nopanic
+//@   refines limited_rationality.HeuristicParams.IsRandomAlternativesOrdering with randomOrderOf=mjRandom
+//@   ensures result == m.RandomAlternativesOrdering
+//@ func (*MajorityHeuristicParams).GetRandomSeed
+//@   property C11 C01
+//@   nopanic
+//@   ensures result == m.RandomSeed
+//@ func (*Majority).ParseParams
+//@   property C11 C20 C01
+//@   ensures [decoded_parameters] typeis(result, MajorityHeuristicParams)
+//@             && result.(MajorityHeuristicParams).CurrentChoice == (decoded_has(dm.MethodParameters, "CurrentChoice") ? decoded_str(dm.MethodParameters, "CurrentChoice") : "")
+//@             && result.(MajorityHeuristicParams).DrawResolution == (decoded_has(dm.MethodParameters, "DrawResolution") ? decoded_str(dm.MethodParameters, "DrawResolution") : "")
+//@             && result.(MajorityHeuristicParams).RandomSeed == (decoded_has(dm.MethodParameters, "RandomSeed") ? decoded_int(dm.MethodParameters, "RandomSeed") : 0)
+//@             && result.(MajorityHeuristicParams).RandomAlternativesOrdering == (decoded_has(dm.MethodParameters, "RandomAlternativesOrdering") && decoded_bool(dm.MethodParameters, "RandomAlternativesOrdering"))
+
 // ---- the tournament loop, one step at a time (C11, C01): the running winner meets the next alternative of the search order
 //@ func (*Majority).Evaluate
 //@   property C11 C01
+//@   requires [parameters] typeis(dm.MethodParameters, MajorityHeuristicParams)
+//@   returnhint [policy_named_in_the_request] len(params.DrawResolution) == 0 ? drawResolver == m.drawResolvers[0]
+//@             : (exists k int :: 0 <= k && k < len(m.drawResolvers) && drawResolver == m.drawResolvers[k] && drawName(drawResolver) == params.DrawResolution)
+//@   loop 1 invariant [current_choice_of_the_request_goes_first] iter == 0 && len(params.CurrentChoice) > 0 ==> current.Id == params.CurrentChoice
+//@   returnhint [weights_of_the_request] len(*criteriaWithWeights) == len(dm.Criteria) && forall k int :: 0 <= k && k < len(dm.Criteria) ==>
+//@             (*criteriaWithWeights)[k].Criterion == dm.Criteria[k] && (*criteriaWithWeights)[k].Weight == params.Weights[dm.Criteria[k].Id]
 //@   loop 1 hint [running_winner_meets_the_next_one] s1 == score(*criteriaWithWeights, head(current), another, len(*criteriaWithWeights))
 //@             && s2 == score(*criteriaWithWeights, another, head(current), len(*criteriaWithWeights))
 //@   returnhint [the_undefeated_one_closes_the_last_group] len(worseThanCurrent) >= 1 && len(sameBuffer) >= 1
